@@ -58,6 +58,9 @@ var shapes = []shape{
 	{Name: "value-consumes-shared-source", Gen: "src := <{|k| yield k; recur(k + 1)}>.new(100)\ngen := <{|i| yield src.next if i < 3; recur(i + 1)}>"},
 	// the guard is an int (truthy when non-zero, also when negative)
 	{Name: "int-guard", Gen: "gen := <{|i| yield i if i - 3; recur(i + 1)}>"},
+	// an unguarded yield succeeds first; a guarded yield written after it still decides whether the step stops
+	{Name: "plain-yield-then-guarded-yield", Gen: "gen := <{|i| yield i; yield 99 if i < 3; recur(i + 1)}>"},
+	{Name: "plain-yield-recur-then-guarded-yield", Gen: "gen := <{|i| yield i; recur(i + 1); yield 99 if i < 3}>"},
 	{Name: "nil-first-yield", Gen: "gen := <{|i| yield [nil, i][i % 2] if i < 4; yield 99; recur(i + 1); 77}>"},
 }
 
@@ -103,7 +106,7 @@ func (s *mstate) clone() *mstate {
 // next returns (value, stopped) and advances it.
 func (s *mstate) next(it *mit) (int, bool) {
 	switch shapes[s.shape].Name {
-	case "yield-then-recur", "two-yields", "implicit-args", "implicit-numbered-args", "int-guard":
+	case "yield-then-recur", "two-yields", "implicit-args", "implicit-numbered-args", "int-guard", "plain-yield-then-guarded-yield":
 		if it.i < 3 {
 			v := it.i
 			it.i++
@@ -125,7 +128,7 @@ func (s *mstate) next(it *mit) (int, bool) {
 			return v, false
 		}
 		return 0, true
-	case "recur-then-yield":
+	case "recur-then-yield", "plain-yield-recur-then-guarded-yield":
 		v := it.i
 		it.i++
 		if v < 3 {
